@@ -23,6 +23,9 @@ impl SessionS {
     pub uninterp spec fn step_set_session_stop_reason(self, reason: SessionStopReason) -> (SessionS, ());
     #[verifier::external_body]
     pub fn set_session_stop_reason(&mut self, reason: SessionStopReason) ensures (*final(self), ()) == old(self).step_set_session_stop_reason(reason) { unimplemented!() }
+    pub uninterp spec fn step_abandon_pending_deliveries(self) -> (SessionS, ());
+    #[verifier::external_body]
+    pub fn abandon_pending_deliveries(&mut self) ensures (*final(self), ()) == old(self).step_abandon_pending_deliveries() { unimplemented!() }
     pub uninterp spec fn get_session_stop_reason(self) -> StopArc;
     #[verifier::external_body]
     pub fn session_stop_reason(&self) -> (r: &StopArc) ensures *r == self.get_session_stop_reason() { unimplemented!() }
@@ -91,6 +94,12 @@ impl TxnSession {
 //@@ spec
     ensures
         (final(self).session, ()) == old(self).session.step_set_session_stop_reason(reason),     // [C14.txn-session.stop-reason-published-in-the-sessions-cell] the stop reason is recorded in the cell of the wrapped session -- the one its handles and links read
+        final(self).control == old(self).control && final(self).txn_manager == old(self).txn_manager,
+//@@ end
+//@@ fn file=fe2o3-amqp/src/transaction/session.rs impl=`~impl<S>endpoint::SessionforTxnSession<S>where` name=abandon_pending_deliveries
+//@@ spec
+    ensures
+        (final(self).session, ()) == old(self).session.step_abandon_pending_deliveries(),     // [C14.txn-session.waiters-released-by-the-session] when the engine stops, the sends still waiting on links of the wrapped session are released by it (unit SESSION [C14.session-stop.every-sending-relay-reached])
         final(self).control == old(self).control && final(self).txn_manager == old(self).txn_manager,
 //@@ end
 //@@ fn file=fe2o3-amqp/src/transaction/session.rs impl=`~impl<S>endpoint::SessionforTxnSession<S>where` name=session_stop_reason
